@@ -1,0 +1,50 @@
+//go:build verif
+
+// Contracts for package proxy, read by the verification-condition generator in
+// /verif (govc).  Comment-only.
+//
+// Vocabulary: httpstatus(r) / httpwrites(r) / respbody(r) / resphdr(r) are the
+// verifier's ghost record of what was written to a responder.Responder;
+// fmtid(format, args...) is the identity of fmt.Sprintf's result; sid(s) the
+// content identity of a string; timefmt(t) the identity of t.Format(http.TimeFormat).
+
+package proxy
+
+// ---------------------------------------------------------------- storability (C04)
+
+//@ props C04 C16
+//@ func fetcher.shouldResponseBeCached
+//@   nopanic
+//@   requires f.cfg != nil && aset(f.cfg.Proxy.CachePolicy.IgnoreCacheControl.value) && resp != nil && resp.Request != nil && upstreamHd != nil
+//@   ensures [C04] result ==> resp.StatusCode == 200 && resp.Request.Method == "GET"
+//@   ensures [C04] result ==> !upstreamHd.Range.value.some
+//@   ensures [C04] result && !cfgval(f.cfg.Proxy.CachePolicy.IgnoreCacheControl) ==> (!upstreamHd.CacheControl.value.some || (!upstreamHd.CacheControl.value.value.noCache && upstreamHd.CacheControl.value.value.maxAge >= 1)) && (!upstreamHd.Expires.value.some || !(upstreamHd.Expires.value.value < now))
+//@   ensures [C04] resp.StatusCode == 200 && resp.Request.Method == "GET" && !upstreamHd.Range.value.some && cfgval(f.cfg.Proxy.CachePolicy.IgnoreCacheControl) ==> result
+
+// ---------------------------------------------------------------- Range answers (C07)
+
+// Not yet verified: the fetch path is used here only on the (discouraged)
+// retry_on_invalid_range branch.
+//@ func fetcher.dedupFetch
+//@   trusted
+//@   ensures err == nil ==> (fetched.Type == 0 || fetched.Type == 1)
+//@   ensures err == nil && fetched.Type == 1 ==> fetched.Direct.Response != nil && fetched.Direct.Response.Body != nil
+//@   ensures err == nil && fetched.Type == 0 ==> fetched.Cached.Entry != nil && fetched.Cached.Entry.Metadata != nil && fetched.Cached.Entry.Data != nil
+
+//@ props C07 C16
+//@ func Proxy.handleRangeRequest
+//@   nopanic
+//@   requires p.cfg != nil && aset(p.cfg.Proxy.RetryOnInvalidRange.value) && req != nil && clientHd != nil && clientHd.Range.value.some
+//@   requires clientHd.Range.value.value.start >= -1 && clientHd.Range.value.value.end >= -1
+//@   requires cached != nil && cached.Metadata != nil && cached.Metadata.Size >= 0
+//@   requires clientHd.IfRange.value.some ==> (clientHd.IfRange.value.value.left.some || clientHd.IfRange.value.value.right.some)
+//@   ensures [C07] old(specRangeOK(clientHd.Range.value.value.start, clientHd.Range.value.value.end, cached.Metadata.Size)) && !old(specIfRangeMismatch(clientHd, cached)) ==> result != ErrIfRangeMismatch && result != ErrRangeNotSatisfiable && httpstatus(r) == 206 && httpwrites(r) == old(httpwrites(r)) + 1
+//@   ensures [C07] old(specRangeOK(clientHd.Range.value.value.start, clientHd.Range.value.value.end, cached.Metadata.Size)) && !old(specIfRangeMismatch(clientHd, cached)) ==> sid(resphdr(r)["Content-Range"][0]) == old(fmtid("bytes %d-%d/%d", specRangeStart(clientHd.Range.value.value.start, clientHd.Range.value.value.end, cached.Metadata.Size), specRangeEnd(clientHd.Range.value.value.start, clientHd.Range.value.value.end, cached.Metadata.Size), cached.Metadata.Size))
+//@   ensures [C07] old(specRangeOK(clientHd.Range.value.value.start, clientHd.Range.value.value.end, cached.Metadata.Size)) && !old(specIfRangeMismatch(clientHd, cached)) ==> sid(resphdr(r)["Content-Length"][0]) == old(fmtid("%d", specRangeEnd(clientHd.Range.value.value.start, clientHd.Range.value.value.end, cached.Metadata.Size) - specRangeStart(clientHd.Range.value.value.start, clientHd.Range.value.value.end, cached.Metadata.Size) + 1))
+//@   ensures [C07] old(specRangeOK(clientHd.Range.value.value.start, clientHd.Range.value.value.end, cached.Metadata.Size)) && !old(specIfRangeMismatch(clientHd, cached)) && req.Method != "HEAD" ==> respbody(r) == old(sectionreader(cached.Data, specRangeStart(clientHd.Range.value.value.start, clientHd.Range.value.value.end, cached.Metadata.Size), specRangeEnd(clientHd.Range.value.value.start, clientHd.Range.value.value.end, cached.Metadata.Size) - specRangeStart(clientHd.Range.value.value.start, clientHd.Range.value.value.end, cached.Metadata.Size) + 1))
+//@   ensures [C07] old(specRangeOK(clientHd.Range.value.value.start, clientHd.Range.value.value.end, cached.Metadata.Size)) && old(specIfRangeMismatch(clientHd, cached)) ==> result == ErrIfRangeMismatch && httpwrites(r) == old(httpwrites(r))
+//@   ensures [C07] !old(specRangeOK(clientHd.Range.value.value.start, clientHd.Range.value.value.end, cached.Metadata.Size)) && !old(cfgval(p.cfg.Proxy.RetryOnInvalidRange)) ==> result == ErrRangeNotSatisfiable && httpstatus(r) == 416 && httpwrites(r) == old(httpwrites(r)) + 1 && sid(resphdr(r)["Content-Range"][0]) == old(fmtid("bytes */%d", cached.Metadata.Size))
+
+// An If-Range does not match when it is an entity tag different from the stored
+// one, or a date earlier than the stored Last-Modified.
+//@ spec func specIfRangeMismatch(hd ptr, cached ptr) bool = hd.IfRange.value.some && ((hd.IfRange.value.value.left.some && sid(hd.IfRange.value.value.left.value) != sid(cached.Metadata.Object.ETag)) || (!hd.IfRange.value.value.left.some && hd.IfRange.value.value.right.value < cached.Metadata.Object.LastModified))
